@@ -37,6 +37,10 @@ def generate(rng, tier):
                 for lorch in (False, True):
                     cases.append({"group": "ft", "method": mi, "name": name, "x": x, "y": y, "dy": dy, "xout": xout, "dt": [xd, yd, dd, od],
                                   "lorch": lorch, "desc": {"group": "ft", "method": name, "dtypes": "%d%d%d%d" % (xd, yd, dd, od), "lorch": lorch}})
+                    if dd == 0:   # with the omitted-range correction (Qmin > 0, an output point exactly at 0)
+                        cases.append({"group": "ft", "method": mi, "name": name, "x": [v + 1 for v in x], "y": y, "dy": dy, "xout": xout,
+                                      "dt": [xd, yd, dd, od], "lorch": lorch, "omitted": True,
+                                      "desc": {"group": "ft", "method": name, "dtypes": "%d%d%d%d" % (xd, yd, dd, od), "lorch": lorch, "omitted": True}})
         for d in (0, 1):
             nin, nout = (L.RN, L.GN) if d == 0 else (L.GN, L.RN)
             for a, b in itertools.product(nin, nout):
@@ -84,6 +88,8 @@ def build_call(pystog, case, force_float=False):
         d = None if dt[2] == 0 else arr(case["dy"], dt[2] - 1)
         tr = pystog.Transformer()
         k2 = {"lorch": True} if case["lorch"] else {}
+        if case.get("omitted"):
+            k2["OmittedXrangeCorrection"] = True
         if case["name"] == "fourier_transform":
             return (lambda: tr.fourier_transform(x, y, xo, dy_in=d, **k2)[1:]), [x, y, xo] + ([d] if d is not None else [])
         return (lambda: tr.F_to_G(x, y, xo, d, **k2)[1:]), [x, y, xo] + ([d] if d is not None else [])
@@ -164,7 +170,8 @@ def run_impl(pystog, case):
     if err is None:
         for fill in (float("nan"), 3.0):
             F.poison({len(a) for a in args} | {len(o) for o in out if o is not None and o.ndim}, fill)
-            out2 = [None if o is None else np.asarray(o) for o in call()]
+            with F.poisoned_empty(fill):
+                out2 = [None if o is None else np.asarray(o) for o in call()]
             rep = rep and all((a is None and b is None) or (a is not None and b is not None and a.dtype == b.dtype and a.tobytes() == b.tobytes())
                               for a, b in zip(out, out2))
     fcall, _ = build_call(pystog, case, force_float=True)
